@@ -179,9 +179,52 @@ func genRoot(g *yg.G) *A {
 	idx := 0
 	n := 1 + g.Pick(4, "nbody")
 	for i := 0; i < n; i++ {
+		if g.Pick(3, "otherstmt") == 0 {
+			m.Kids = append(m.Kids, genOther(g, &idx))
+			continue
+		}
 		m.Kids = append(m.Kids, genData(g, 3, &idx))
 	}
 	return m
+}
+
+// genOther: the other body statements of a module - rpc (with neither, one or both of input and output, or no body
+// at all), notification, typedef, grouping, feature, identity, extension, anyxml: each kind has its own node type in
+// the parser, and the tree holds what the text holds, nothing implied
+func genOther(g *yg.G, idx *int) *A {
+	*idx++
+	name := fmt.Sprintf("o%d", *idx)
+	leaf := func(n string) *A { return &A{Kw: "leaf", Val: sp(n), Kids: []*A{{Kw: "type", Val: sp("string")}}} }
+	switch g.Pick(8, "otherkind") {
+	case 0, 1:
+		r := &A{Kw: "rpc", Val: sp(name)}
+		switch g.Pick(5, "rpcform") {
+		case 1:
+			r.Kids = []*A{{Kw: "input", Kids: []*A{leaf("a")}}}
+		case 2:
+			r.Kids = []*A{{Kw: "output", Kids: []*A{leaf("b")}}}
+		case 3:
+			r.Kids = []*A{{Kw: "input", Kids: []*A{leaf("a")}}, {Kw: "output", Kids: []*A{leaf("b")}}}
+		case 4:
+			r.Kids = []*A{{Kw: "description", Val: sp(genValue(g))}}
+		}
+		return r
+	case 2:
+		return &A{Kw: "notification", Val: sp(name), Kids: []*A{leaf("a")}}
+	case 3:
+		return &A{Kw: "typedef", Val: sp(name), Kids: []*A{{Kw: "type", Val: sp("string")}}}
+	case 4:
+		return &A{Kw: "grouping", Val: sp(name), Kids: []*A{leaf("a")}}
+	case 5:
+		return &A{Kw: "feature", Val: sp(name)}
+	case 6:
+		return &A{Kw: "identity", Val: sp(name)}
+	default:
+		if g.Pick(2, "extoranyxml") == 0 {
+			return &A{Kw: "extension", Val: sp(name), Kids: []*A{{Kw: "argument", Val: sp("v")}}}
+		}
+		return &A{Kw: "anyxml", Val: sp(name)}
+	}
 }
 
 func canUnquoted(v string) bool {
